@@ -139,4 +139,12 @@ def build_azimuthal(rng, n_az=None, equal_counts=None):
             amp = 1.0 + rng.uniform(1, 5, (nc, 1)) * np.exp(-0.5 * ((lf[None, :] - rng.uniform(lf[2], lf[-3], (nc, 1))) / rng.uniform(0.1, 0.4, (nc, 1))) ** 2)
         hv.append(hvsrpy.HvsrTraditional(f, amp))
     az = np.sort(rng.choice(np.arange(0, 180, 0.5), size=n_az, replace=False)).tolist()
-    return hvsrpy.HvsrAzimuthal(hv, az, meta={"processing_method": "azimuthal"})
+    meta = {"processing_method": "azimuthal"}
+    if rng.random() < 0.35:
+        # re-assembled from an earlier sweep (a subset of its azimuths kept, or two sweeps joined) with that sweep's
+        # metadata handed on: the echo of the earlier settings no longer describes this object's azimuths
+        earlier = np.arange(0, 180, float(rng.choice([15.0, 30.0, 45.0]))).tolist()
+        meta.update({"azimuths_in_degrees": earlier, "window_type_and_width": ["tukey", 0.1],
+                     "smoothing": {"operator": "konno_and_ohmachi", "bandwidth": 40, "center_frequencies_in_hz": [float(v) for v in f]},
+                     "handle_dissimilar_time_steps_by": "frequency_domain_resampling", "fft_settings": {"n": 32768}})
+    return hvsrpy.HvsrAzimuthal(hv, az, meta=meta)
